@@ -437,9 +437,9 @@ def run(run, replay=None):
         "classes: projective Polygon, hyperbolic Polygon, Segment, TangentVector (derived data) and hyperbolic Point; "
         "dimension 2 (and 3 with a smaller depth)",
         "histories: constructor (from array / list of objects / object) then up to 2 (quick) / 3 (thorough) "
-        "state-changing calls (one less for the list / object constructor routes, in dimension 3, and in the thorough tier "
-        "for hyperbolic Point), objects of at most 6 units, at most two transformations per unit; the query battery runs "
-        "after the constructor and on a seeded fraction (25% quick / 6% thorough) of the later states",
+        "state-changing calls (depth 3 only from the initial objects of shape (), (2,), (2,2); one less for the list / "
+        "object constructor routes, in dimension 3, and for hyperbolic Point), objects of at most 6 units, at most two transformations per unit; the query battery runs "
+        "after the constructor and on a seeded fraction (15% quick / 6% thorough) of the later states",
         "queries are not executed on complex-valued objects (after astype(complex128)); tolerance 5e-4 after float32",
         "ConvexPolygon is not covered (composite use documented as unsupported)",
     ]
@@ -473,12 +473,14 @@ def run(run, replay=None):
             # full depth in dimension 2 for the array route; the other constructor routes, dimension 3 and (thorough) the
             # class without derived data one level less
             d2 = depth if act["route"] == "array" else depth - 1
-            if cls == "HPoint" and not quick:
+            if cls == "HPoint":
                 d2 -= 1
+            if depth > 2 and tuple(to["shape"]) not in ((), (2,), (2, 2)):
+                d2 = min(d2, 2)           # thorough: depth 3 from the objects of shape (), (2,), (2,2)
             jobs.append((cls, 2, act, tk, to, d2))
             jobs.append((cls, 3, act, tk, to, max(d2 - 1, 0)))
     jobs.sort(key=lambda j: -j[5])
-    qrate = 0.25 if quick else 0.06
+    qrate = 0.15 if quick else 0.06
     # interleave jobs over the workers, heavy ones first
     chunks = [jobs[i::nproc * 4] for i in range(nproc * 4)]
     with mp.get_context("fork").Pool(nproc) as pool:
